@@ -107,7 +107,7 @@ pub fn check_case(case: &Case, ctx: &mut Ctx) {
         ctx.check(model::eq_dec(&g1, &g2.neg()), "cbrt/mirror-identity", case, || format!("cbrt({}, {}) = {} but -cbrt({}, {}) = {}", x.tok(), mode_name(mode), g1.tok(), nx.tok(), mode_name(mirror(mode)), g2.neg().tok()));
     }
     let (dp, dm) = default_ctx();
-    if p == dp || ctx.cases % 4 == 0 {
+    if p == dp || case.hash() % 4 == 0 {
         let r = ctx.guard(|| b.cbrt());
         judge(ctx, case, "cbrt (default context)", r, &x, dp, dm);
     }
